@@ -83,8 +83,8 @@ pub fn decode_mutations(bytes: &[Word]) -> Result<Vec<Mutation>, MutationDecodeE
     // Saturating cast
     let len: usize = bytes[0].try_into().unwrap_or(usize::MAX);
 
-    // FIXME: Do a max size check to avoid a DoS attack that allocates too much memory.
-    let mut mutations = Vec::with_capacity(len);
+    // The count is untrusted: do not pre-allocate from it.
+    let mut mutations = Vec::new();
     if len == 0 {
         return Ok(mutations);
     }
